@@ -53,7 +53,7 @@ Proof.
     + assert (Hbad: cbits v mod 8 <> 0 \/ cbits v = 0).
       { unfold okw in W. apply andb_false_iff in W as [W|W]; [left; apply Z.eqb_neq, W|right].
         apply negb_false_iff, Z.eqb_eq in W. exact W. }
-      rewrite store_bad_width in E by exact Hbad. injection E as <-. repeat split; assumption.
+      rewrite store_bad_width in E by exact Hbad. injection E as <-. exact (conj G (conj Ee (conj Eb HA))).
   - destruct (set_permissions_cells m a len p m' E) as (L & B1 & B2).
     assert (G': Good m') by (eapply (apply_op_good m (MSetPerm a len p)); [exact G|exact I|exact E]).
     split; [exact G'|]. split; [congruence|]. split; [congruence|].
@@ -90,3 +90,68 @@ Proof.
   { induction c as [|c IH]; intros a0; cbn [gather]; [reflexivity|]. rewrite HA, IH. reflexivity. }
   rewrite G. reflexivity.
 Qed.
+
+(* ------------------------------------------------------------------ permissions over histories *)
+Definition plog_step (pl : list sperm) (o : mop) : list sperm :=
+  match o with MSetPerm a len p => mksp a len p :: pl | MStore _ _ => pl end.
+Definition splog (ops : list mop) (pl0 : list sperm) : list sperm := fold_left plog_step ops pl0.
+
+(* set_permissions ranges the theorems speak about: inside the address space, shorter than 2^63 *)
+Definition op_ok_p (o : mop) : Prop :=
+  match o with
+  | MSetPerm a len p => 0 <= a /\ 0 <= len < 2^63 /\ a + len <= 2^64
+  | MStore _ _ => True
+  end.
+
+Definition pdenotes (b : option backing) (pl : list sperm) (m : cmem) : Prop :=
+  m_back m = b /\ forall x, 0 <= x -> match perm_at b pl x with Some r => permissions m x = r | None => True end.
+
+Lemma pstep_denotes b pl (m : cmem) o m' :
+  pdenotes b pl m -> op_ok_p o -> apply_op (Ok m) o = Ok m' -> pdenotes b (plog_step pl o) m'.
+Proof.
+  intros (Eb & HP) Hok E. destruct o as [a v|a len p]; cbn [apply_op bind plog_step] in *.
+  - destruct (Paged.store COps m a v) as [m1|err|] eqn:E1; try discriminate; injection E as <-.
+    + destruct (store_frame m a v m1 E1) as (F1 & _). split; [congruence|].
+      intros x Hx. specialize (HP x Hx). destruct (perm_at b pl x); [|exact I].
+      rewrite (store_keeps_perms_l m a v m1 E1). exact HP.
+    + split; assumption.
+  - destruct Hok as (Ha & Hl & Hb).
+    destruct (set_permissions_spec m a len p Ha Hl Hb) as (m1 & E1 & B1 & _ & _ & PP).
+    rewrite E in E1. injection E1 as <-. split; [congruence|].
+    intros x Hx. cbn [perm_at]. unfold touches. cbn [sp_a sp_len sp_p].
+    rewrite permissions_pperm, PP, B1. unfold pg, page_addr, PAGE_SIZE in *.
+    destruct (Z.eqb_spec len 0) as [L0|L0].
+    + destruct (Z.eqb_spec (x / 1024) (a / 1024)); [exact I|].
+      destruct (Z.leb_spec (a - a mod 1024) (x - x mod 1024)), (Z.ltb_spec (x - x mod 1024) (a + len)); cbn [andb]; try lia;
+        (specialize (HP x Hx); destruct (perm_at b pl x); [|exact I]; rewrite <- HP, permissions_pperm; unfold page_addr, PAGE_SIZE; reflexivity).
+    + destruct (Z.leb_spec (a / 1024) (x / 1024)), (Z.leb_spec (x / 1024) ((a + len - 1) / 1024)); cbn [andb];
+      destruct (Z.leb_spec (a - a mod 1024) (x - x mod 1024)), (Z.ltb_spec (x - x mod 1024) (a + len)); cbn [andb]; try lia; try reflexivity;
+        (specialize (HP x Hx); destruct (perm_at b pl x); [|exact I]; rewrite <- HP, permissions_pperm; unfold page_addr, PAGE_SIZE; reflexivity).
+Qed.
+
+(* permissions after any history: the most recent set_permissions whose range touches the page of x
+   (page-granular by design), else the backing's; stores never matter.  `perm_at` answers None only
+   for a page named by an empty range (len = 0), where the property promises nothing. *)
+Theorem history_perms_l e b ops (m : cmem) :
+  Forall op_ok_p ops -> run (mnew e b) ops = Ok m ->
+  forall x, 0 <= x -> match perm_at b (splog ops []) x with Some r => permissions m x = r | None => True end.
+Proof.
+  intros F E.
+  assert (D0: pdenotes b [] (mnew e b : cmem)).
+  { split; [reflexivity|]. intros x Hx. cbn [perm_at]. reflexivity. }
+  assert (H: forall ops pl (m0 m : cmem), pdenotes b pl m0 -> Forall op_ok_p ops -> run m0 ops = Ok m ->
+             pdenotes b (splog ops pl) m).
+  { unfold run, splog. clear. induction ops as [|o ops IH]; intros pl m0 m D F E; cbn [fold_left] in *.
+    - injection E as <-. exact D.
+    - inversion F as [|o' ops' Ho Hops]; subst.
+      destruct (apply_op (Ok m0) o) as [m1|err|] eqn:E1.
+      + apply (IH (plog_step pl o) m1 m); [eapply pstep_denotes; eassumption|assumption|assumption].
+      + exfalso. clear - E. induction ops as [|o2 ops IH2]; cbn in E; [discriminate|]. apply IH2, E.
+      + exfalso. clear - E. induction ops as [|o2 ops IH2]; cbn in E; [discriminate|]. apply IH2, E. }
+  exact (proj2 (H ops [] (mnew e b) m D0 F E)).
+Qed.
+
+(* the open finding, as a witness: a one-byte store at the last address panics (overflow-checked
+   `address + bits/8`), although no byte of it wraps *)
+Example store_top_panics : Paged.store COps (mnew LE None) (2^64 - 1) (mkc 8 1) = Panic.
+Proof. vm_compute. reflexivity. Qed.
